@@ -503,6 +503,8 @@ func c02Scenarios(tier string) []*world.Scenario {
 		g.ReadCap, g.WriteCap, g.MaxLen, g.Horizon = 65536, 65536, 6<<20, 100000
 		out = append(out, g)
 	}
+	// round 11: replies of minimal size (status / error line with empty text, alone and nested)
+	out = append(out, TerseReplies("C02", 2)...)
 	return out
 }
 
@@ -1056,6 +1058,16 @@ func c04Scenarios(tier string) []*world.Scenario {
 			return vs
 		}
 		out = append(out, sc)
+	}
+	// round 11: passwords made of bytes that mean something to a formatter or to the protocol (the handshake must carry the
+	// configured password byte for byte)
+	for pi, pw := range []string{"s3cr%t", "100%sure", "50%", "%d%s%v", "a b", "p\r\nw", "{pw}", "\\x"} {
+		for _, n := range []string{"get", "set"} {
+			sc := c04Command(n, 2, false, 16383, pw)
+			sc.Name += fmt.Sprintf("/odd-password%d", pi)
+			sc.Family = "odd-passwords"
+			out = append(out, sc)
+		}
 	}
 	return out
 }
